@@ -7,6 +7,7 @@ only by a companion that declares the missing name - the companions here never d
 (3) conservation (hook events) - the topological re-assembly must output the multiset of
 declaration names it was given."""
 import collections
+import copy
 import os
 import shutil
 
@@ -140,11 +141,42 @@ def shard(shard_i, nshards, payload):
                     if judge_fail(res, r, obs, want, case, name):
                         res.distinct.add(core.key_of(name, k, variant % 2))
                         res.seen("fault_kinds", name)
+            # ---- (1c) a task reference is per resource: a task of that name in ANOTHER configuration cures nothing
+            cfg_i = [k for k, d in enumerate(decls) if d["k"] == "config"]
+            progs = [d for d in decls if d["k"] == "program"]
+            if cfg_i and progs:
+                m = copy.deepcopy(decls)
+                m[cfg_i[0]]["programs"][0][1] = "NoSuchTask"
+                other = {"k": "config", "name": "OtherCfg", "resource": "otherRes", "globals": [],
+                         "tasks": [["NoSuchTask", 1, None]], "programs": [["otherInst", "NoSuchTask", progs[0]["name"]]]}
+                for place in ("before", "after", "other-file-first", "other-file-last"):
+                    if place == "before":
+                        files = [("a.st", vgen.render_unit([other] + m))]
+                    elif place == "after":
+                        files = [("a.st", vgen.render_unit(m + [other]))]
+                    elif place == "other-file-first":
+                        files = [("o.st", vgen.render_unit([other])), ("a.st", vgen.render_unit(m))]
+                    else:
+                        files = [("a.st", vgen.render_unit(m)), ("o.st", vgen.render_unit([other]))]
+                    r, obs = project_semantic(probe, files)
+                    res.evaluations += 1
+                    res.count("cross-config-task")
+                    case = {"files": files, "planted": "P0011", "site": "task defined in another configuration: " + place}
+                    if judge_fail(res, r, obs, {"P0011"}, case, "rule:P0011:other-config"):
+                        res.distinct.add(core.key_of("crosscfg", place))
             # ---- (2) duplicate names
             named = [d for d in decls if d["k"] in ("enum", "struct", "subrange", "array", "fb", "program", "function", "alias")]
             rng.shuffle(named)
             for d in named[:payload["dups_per_unit"]]:
-                for how in ("same-kind", "other-kind"):
+                for how in ("same-kind", "other-kind", "same-kind-recased", "other-kind-recased"):
+                    orig_name = d["name"]
+                    if how.endswith("-recased"):
+                        # identifiers are case-insensitive: a twin spelled in another letter case is the same name
+                        d = dict(d, name=orig_name.swapcase() if rng.random() < 0.5 else orig_name.upper())
+                        how = how[:-len("-recased")]
+                        recased = True
+                    else:
+                        recased = False
                     if how == "same-kind":
                         twin = dict(d)
                         if d["k"] in ("fb", "program"):
@@ -172,7 +204,7 @@ def shard(shard_i, nshards, payload):
                         res.evaluations += 1
                         res.count("duplicate")
                         case = {"files": files, "duplicate": d["name"], "how": how, "place": place, "kind": d["k"]}
-                        tag = "dup:%s:%s" % (kind_class(d["k"]), how)
+                        tag = "dup:%s:%s%s" % (kind_class(d["k"]), how, ":recased" if recased else "")
                         if judge_fail(res, r, obs, {"P0019", "P0020"}, case, tag):
                             res.distinct.add(core.key_of("dup", d["k"], how, place))
                         if isinstance(r, dict) and r.get("ok"):
